@@ -338,3 +338,5 @@ MUTANTS = [
 ]
 
 RENAME_FUNCS = [('note_seq/' + fq.split(':')[0] + '.py', fq.split(':')[1]) for fq, _p in SCOPE]
+
+EXPLANATION += (" Order analysis: reasons that only say 'cannot classify' are undecided, never violations (ordr.UNK); heapq.merge / bisect assume sorted input (positive finding); ORD/positional definite except for the allow-listed tempo / time-signature reads; ORD/traversal/instrument-order.")
